@@ -458,6 +458,9 @@ def gen(ctx):
     from gen import c18_inventory
     info = c18_inventory.run(ctx)
     ctx.gen_info["sources"] = src_hashes(["myst_parser/inventory.py"])
+    # round 3: the reader methods, the loaders and the converters translated statement by statement
+    from gen import c18_src
+    ctx.gen_info["Gen/InventorySrc.v"] = c18_src.run(ctx)
     ctx.gen_info["inventory"] = {k: info[k] for k in ("myst_regex", "sphinx_regex", "regex_same", "BUFSIZE", "headers", "slices")}
     import hashlib
     import sphinx
